@@ -81,6 +81,15 @@ PROBES = [
     ('variadic-named-parameters', 'arguments for the NAMED parameters of a variadic function are converted to the parameter types (not default-promoted)',
      'void out_l(long);\nvoid out_d(double);\nlong first(long a, double d, unsigned long u, ...) { out_d(d); out_l((long)(u >> 32)); return a; }\nfloat fl(float f, ...) { return f * 2; }\n'
      'int main(void)\n{\n\tint neg = -7, three = 3;\n\tunsigned char c = 200;\n\tout_l(first(neg, three, neg, 1, 2));\n\tout_l(first(c, c, c, 0));\n\tout_d(fl(three, 1.5));\n\treturn 0;\n}\n'),
+    ('rarely-lowered-constructs', 'constructs the generators do not produce (found with a coverage build): _Noreturn calls, __func__, wide-string automatic arrays, return without value, over-aligned partially initialised locals',
+     'void out_l(long);\nint depth;\n_Noreturn void stop(int c);\nvoid visit(int n) { if (n == 0) return; out_l(n); visit(n - 1); return; }\n'
+     'int name_len(void) { int n = 0; while (__func__[n]) n++; return n * 1000 + __func__[0]; }\n'
+     'long wides(int k)\n{\n\tunsigned short u[6] = u"ab";\n\tint w[5] = L"xyz";\n\tunsigned v[3] = U"pq";\n\treturn u[0] + u[1] * 3 + u[2] + u[5] + w[2] * 7 + w[3] + w[4] + v[1] * 11 + v[2] + k;\n}\n'
+     'long aligned(int k)\n{\n\tstruct { _Alignas(16) char c; int y; long z[5]; } s = { .y = k };\n\t_Alignas(32) int a[12] = { [3] = k };\n\tlong r = s.c + s.y + s.z[0] + s.z[4] + a[0] + a[3] + a[11];\n'
+     '\treturn r * 2 + (((unsigned long)&s & 15) == 0) + (((unsigned long)a & 31) == 0);\n}\n'
+     'int pick(int c) { if (c > 2) stop(c); return c ? c + 1 : (stop(0), 0); }\n'
+     'int main(void)\n{\n\tvisit(3);\n\tout_l(name_len());\n\tout_l(wides(5));\n\tout_l(aligned(7));\n\tout_l(pick(1));\n\tout_l(pick(2));\n\treturn 0;\n}\n'
+     'void stop(int c) { out_l(-c); for (;;) { } }\n'),
     (K_COPY_PACKED, 'assignment of a packed struct with an _Alignas member (size 5, alignment 4) copies 8 bytes: access beyond both objects',
      'void out_l(long);\nstruct __attribute__((packed)) P { _Alignas(4) int a; char b; };\nstruct P g1 = { 7, 8 }, g2;\n'
      'int main(void)\n{\n\tstruct P *p = &g2, *q = &g1;\n\t*p = *q;\n\tout_l(g2.a);\n\tout_l(g2.b);\n\treturn 0;\n}\n'),
